@@ -78,7 +78,8 @@ func condlessLoops(fn *ssa.Function) []loopInfo {
 				isHeader = true
 			}
 		}
-		if !isHeader || b.Comment != "for.body" {
+		// `for {` loops have the body as header; `for cond {` / three-clause loops have the condition block
+		if !isHeader || (b.Comment != "for.body" && b.Comment != "for.loop") {
 			continue
 		}
 		out = append(out, loopInfo{Fn: fn, Header: b, Blocks: loopBlocks(b)})
@@ -241,6 +242,10 @@ func checkLoopsCancellable(c *Ctx, r *Report) {
 		}
 		loops := condlessLoops(fn)
 		for i, lp := range loops {
+			if lp.Header.Comment == "for.loop" && !loopWaits(c, lp) {
+				// a conditioned loop over data already in memory (or a local file): nothing in it waits for the device
+				continue
+			}
 			construct := fmt.Sprintf("%s loop#%d", shortFn(fn), i+1)
 			var reasons []string
 			var others []string
@@ -265,6 +270,40 @@ func checkLoopsCancellable(c *Ctx, r *Report) {
 			}
 		}
 	}
+}
+
+// loopWaits: something inside the loop waits: a sleep, a select, a channel receive, or a call that reaches a read
+// from the channel queue or the transport.
+func loopWaits(c *Ctx, lp loopInfo) bool {
+	targets := []*ssa.Function{
+		c.LookupFunc("transport", "Transport", "read"),
+		c.LookupFunc("channel", "Channel", "Read"),
+		c.LookupFunc("channel", "Channel", "ReadAll"),
+	}
+	for b := range lp.Blocks {
+		for _, in := range b.Instrs {
+			switch x := in.(type) {
+			case *ssa.Select:
+				return true
+			case *ssa.UnOp:
+				if x.Op == token.ARROW {
+					return true
+				}
+			case *ssa.Call:
+				if o := CalleeObj(x); o != nil && o.Pkg() != nil && o.Pkg().Path() == "time" && o.Name() == "Sleep" {
+					return true
+				}
+				if sc := x.Call.StaticCallee(); sc != nil {
+					for _, t := range targets {
+						if t != nil && (sc == t || c.reachesFn(sc, t)) {
+							return true
+						}
+					}
+				}
+			}
+		}
+	}
+	return false
 }
 
 func sortedBlocks(m map[*ssa.BasicBlock]bool) []*ssa.BasicBlock {
